@@ -229,6 +229,7 @@ def gen_replies(rng, ce, taken=(), idx=None):
                 used.add(casing.cc_upper_snake(cand))
                 alias = cand
         alias_split = rng.random() < 0.5
+        one_sided_raw = rng.choice([None, None, 1, 1])   # the second-declared method only: the entry is raw by the first-declared rule
         for k, on in enumerate(pattern):
             on_word = {"S": "success", "E": "error", "A": "always"}[on]
             fn = h if (len(pattern) == 1 and rng.random() < 0.5) else "on_%s_%s" % (h, on_word)
@@ -254,6 +255,11 @@ def gen_replies(rng, ce, taken=(), idx=None):
                 args += [dict(a, name=pool[i]) for i, a in enumerate(payload)]
             else:
                 args += [dict(a, name=a["name"] + ("" if k == 0 else "b")) for a in payload]
+            # a raw payload parameter marked on one of the two merged methods only (legal: merging compares count and types): builder and
+            # dispatcher must both go by the first-declared method's marking
+            if psig == "raw" and len(pattern) == 2 and one_sided_raw == k:
+                # (`echo_raw`: the echo handler still prints the bytes the way it prints a raw payload)
+                args[-1] = dict({kk_: vv_ for kk_, vv_ in args[-1].items() if kk_ != "payload_raw"}, echo_raw=True)
             msg = {"kind": "reply", "reply_on": on_word, "handlers": [] if fn == h else [h]}
             if alias:
                 msg["handlers"] = [h, alias]
@@ -413,7 +419,7 @@ def reply_body(part, m):
     pargs = m["args"][(0 if role == "none" else 1):]
     parts = []
     for a in pargs:
-        if a.get("payload_raw"):
+        if a.get("payload_raw") or a.get("echo_raw"):
             parts.append('("%s", format!("\\"x{}\\"", hex(%s.as_slice())))' % (a["name"], gen.rs_ident(a["name"])))
         else:
             parts.append('("%s", j(&%s))' % (a["name"], gen.rs_ident(a["name"])))
@@ -741,7 +747,7 @@ def render_mt_ops(prog):
                     it = prog["ifaces"][idx]
                     tr = "<Proxy<'_, MtApp, Ct> as %s::sv::mt::%sProxy<MtApp, Empty>>" % (it["module"], it["name"])
                 if kind == "exec":
-                    fn = lambda ca, tr=tr, cname=cname: ('let ep = %s::%s(&proxy%s); let ep = if f[5] == "-" { ep } else { ep.with_funds(coins.as_slice()) }; '
+                    fn = lambda ca, tr=tr, cname=cname: ('let ep = %s::%s(&proxy%s); let earlier = [Coin::new(9u128, "earlier")]; let ep = if f[5] == "-" { ep } else { ep.with_funds(&earlier).with_funds(coins.as_slice()) }; '
                                                           'match ep.call(&sender) { Ok(r) => show_app_resp(&r), Err(e) => format!("err {}", e) }') % (tr, cname, ca)
                 elif kind == "query":
                     fn = lambda ca, tr=tr, cname=cname: 'match %s::%s(&proxy%s) { Ok(r) => format!("ok {}", j(&r)), Err(e) => format!("err {}", e) }' % (tr, cname, ca)
@@ -815,7 +821,7 @@ def render_helper_ops(prog):
             cname = casing.cc_snake(casing.upper_camel(m["name"]))
             vias = [("ct", "Ct")] + ([("dyn", "dyn %s::%s<Error = %s>" % (prog["ifaces"][idx]["module"], prog["ifaces"][idx]["name"], err))] if svp != "sv" else [])
             for via, ty in vias:
-                call = "<ExecutorBuilder<(EmptyExecutorBuilderState, %s)> as %s::Executor>::%s(Remote::<%s>::new(addr.clone()).executor().with_funds(funds.clone())%s)" % (
+                call = "<ExecutorBuilder<(EmptyExecutorBuilderState, %s)> as %s::Executor>::%s(Remote::<%s>::new(addr.clone()).executor().with_funds(vec![Coin::new(9u128, \"earlier\")]).with_funds(funds.clone())%s)" % (
                     ty, svp, cname, ty, "".join(", a.%d.clone()" % i for i in range(len(tys))))
                 if tys:
                     A('                    ("%d", "%s", "%s") => match from_json::<%s>(json.as_bytes()) { Ok(a) => %s.map(|b| b.build()).map_err(|e| e.to_string()), Err(_) => Err("bad-args".into()) },' % (idx, via, m["name"], tup, call))
